@@ -357,3 +357,17 @@ def c11(prop, tier):
     return multi_check(prop, tier, models, drivers,
                        CASE_ASSUME + ["message classes are concretised with random paths, digests and optional valid fields; equality is proto.Equal after undoing the documented server-side changes (worker filled in when absent, inline contents replaced by their true digest)"],
                        "tlc ActionCache.tla (upload histories) + vh achist")
+
+
+@check("C13")
+def c13(prop, tier):
+    srv = build_server()
+    models = [
+        ("Auth", "Auth.tla", "Auth.cfg", "3 authentication modes x allow_unauthenticated_reads x endpoint metrics x every HTTP method/endpoint and gRPC method x credential state: Mechanism (main.go wiring, interceptors) = Policy", "auth"),
+    ]
+    drivers = [("auth", ["auth", "-server", srv, "-cases", "{auth}", "-tier", "{tier}", "-seed", "{seed}"])]
+    return multi_check(prop, tier, models, drivers,
+                       ["the real binary (package main) is built from /repo and started once per configuration on loopback ports",
+                        "registered gRPC methods are read from the real registration code; a method the specification does not list is treated as mutating",
+                        "only the authentication decision is compared (401 / Unauthenticated / rejected handshake vs anything else); LDAP is not exercised (no server offline)"],
+                       "tlc Auth.tla + vh auth (real binary)")
